@@ -262,6 +262,20 @@ func c17Worker(c *core.Collector, x *Ctx) {
 		}
 	})
 	c.Count("single_packet_layouts", int64(len(jobs)))
+	// (1c) one long stream: 4000 packets of every type and size class decoded with ONE Packet object (and with fresh ones)
+	{
+		r := core.NewRand(c.Seed, "c17long", 0)
+		var stream []byte
+		var pks []ref.RTP
+		for q := 0; q < 4000; q++ {
+			pl := core.Pick(r, []int{0, 0, 1, 2, 7, 40, 950})
+			k := c17Gen(r, q%16, pl)
+			pks = append(pks, k)
+			stream = append(stream, k.Build()...)
+		}
+		run(stream, pks, true, "long-stream")
+		c.Count("long_stream_packets", int64(len(pks)))
+	}
 	// (1b) delta streams: consecutive packets that differ in exactly ONE header byte (every header byte except the data-type
 	// nibble and the length field, several bit masks), decoded with fresh packets and with one reused Packet object: state that
 	// survives between decodes (a cache keyed on part of a field, a field only written when "changed") shows here
